@@ -186,6 +186,18 @@ Proof.
   destruct (forallb (fun x => noneb (a_default x)) a) eqn:F; [|discriminate]. inversion H; subst m.
   cbn [mem_member]. unfold method_member, plain_args. rewrite (args_back a F). reflexivity.
 Qed.
+Definition mem_of_static (m : smethod) : option mem :=
+  match m with
+  | {| s_tmpl := None; s_name := n; s_ret := RSingle t; s_args := a |} =>
+    if forallb (fun x => noneb (a_default x)) a then Some (MS t n (plain_args a)) else None
+  | _ => None
+  end.
+Lemma mem_of_static_ok : forall cn x m, mem_of_static x = Some m -> mem_member cn m = MStatic x.
+Proof.
+  intros cn [[tm|] n [t|t1 t2] a] m H; cbn [mem_of_static] in H; try discriminate.
+  destruct (forallb (fun x => noneb (a_default x)) a) eqn:F; [|discriminate]. inversion H; subst m.
+  cbn [mem_member]. unfold static_member, plain_args. rewrite (args_back a F). reflexivity.
+Qed.
 Definition mem_of_enum (e : enum) : mem := ME (e_name e) (e_items e).
 Lemma mem_of_enum_ok : forall cn l, map (mem_member cn) (map mem_of_enum l) = map MEnum l.
 Proof. intros cn l. rewrite map_map. apply map_ext. intros [n its]. reflexivity. Qed.
@@ -197,37 +209,39 @@ Proof. intros A B C f l H. induction l as [|x l IH]; [reflexivity|]. cbn [map fl
 Lemma fm_none : forall A A' B (C : A -> B) (f : B -> list A') l, (forall x, f (C x) = []) -> flat_map f (map C l) = [].
 Proof. intros A A' B C f l H. induction l as [|x l IH]; [reflexivity|]. cbn [map flat_map]. rewrite H, IH. reflexivity. Qed.
 
-Lemma class_of_grouped : forall v n ks ms ps es,
-  class_of_members v n (map MCtor ks ++ map MMethod ms ++ map MVar ps ++ map MEnum es)
-  = {| c_tmpl := None; c_virtual := v; c_name := n; c_base := None; c_ctors := ks; c_methods := ms; c_statics := [];
+Lemma class_of_grouped : forall v n ks ms ss ps es,
+  class_of_members v n (map MCtor ks ++ map MMethod ms ++ map MStatic ss ++ map MVar ps ++ map MEnum es)
+  = {| c_tmpl := None; c_virtual := v; c_name := n; c_base := None; c_ctors := ks; c_methods := ms; c_statics := ss;
        c_dunders := []; c_props := ps; c_ops := []; c_enums := es |}.
 Proof.
-  intros v n ks ms ps es. unfold class_of_members. rewrite !flat_map_app.
+  intros v n ks ms ss ps es. unfold class_of_members. rewrite !flat_map_app.
   f_equal; repeat first [rewrite fm_same by (intros; reflexivity) | rewrite fm_none by (intros; reflexivity)];
     rewrite ?app_nil_r; reflexivity.
 Qed.
 
 Definition item_of_class (c : class) : option item :=
   match c with
-  | {| c_tmpl := None; c_virtual := v; c_name := n; c_base := None; c_ctors := ks; c_methods := ms; c_statics := [];
+  | {| c_tmpl := None; c_virtual := v; c_name := n; c_base := None; c_ctors := ks; c_methods := ms; c_statics := ss;
        c_dunders := []; c_props := ps; c_ops := []; c_enums := es |} =>
-    match omap (mem_of_ctor n) ks, omap mem_of_method ms, omap mem_of_prop ps with
-    | Some a, Some b, Some c => Some (IClass v n (a ++ b ++ c ++ map mem_of_enum es))
-    | _, _, _ => None
+    match omap (mem_of_ctor n) ks, omap mem_of_method ms, omap mem_of_static ss, omap mem_of_prop ps with
+    | Some a, Some b, Some s, Some c => Some (IClass v n (a ++ b ++ s ++ c ++ map mem_of_enum es))
+    | _, _, _, _ => None
     end
   | _ => None
   end.
 Lemma item_of_class_ok : forall c i, item_of_class c = Some i -> idecl i = DClass c.
 Proof.
   intros [tm v n ba ks ms ss ds ps os es] i H. cbn [item_of_class] in H.
-  destruct tm; [discriminate|]. destruct ba; [discriminate|]. destruct ss; [|discriminate]. destruct ds; [|discriminate].
+  destruct tm; [discriminate|]. destruct ba; [discriminate|]. destruct ds; [|discriminate].
   destruct os; [|discriminate].
   destruct (omap (mem_of_ctor n) ks) as [a|] eqn:Ea; [|discriminate].
   destruct (omap mem_of_method ms) as [b|] eqn:Eb; [|discriminate].
+  destruct (omap mem_of_static ss) as [s|] eqn:Es; [|discriminate].
   destruct (omap mem_of_prop ps) as [c|] eqn:Ec; [|discriminate]. inversion H; subst i.
   cbn [idecl]. unfold class_decl. rewrite !map_app.
   rewrite (omap_map _ _ _ (mem_of_ctor n) (mem_member n) MCtor (mem_of_ctor_ok n) ks a Ea).
   rewrite (omap_map _ _ _ mem_of_method (mem_member n) MMethod (mem_of_method_ok n) ms b Eb).
+  rewrite (omap_map _ _ _ mem_of_static (mem_member n) MStatic (mem_of_static_ok n) ss s Es).
   rewrite (omap_map _ _ _ mem_of_prop (mem_member n) MVar (mem_of_prop_ok n) ps c Ec), mem_of_enum_ok.
   rewrite class_of_grouped. reflexivity.
 Qed.
@@ -350,6 +364,19 @@ Proof.
   split; [intros E; subst el; discriminate|]. apply Forall_forall. intros y Hy. rewrite forallb_forall in H4. apply H4. exact Hy.
 Qed.
 Definition not_operatorb (n : chars) : bool := noneb (prefix koperator n).
+Definition head_statb (t : ty) : bool :=
+  match ty_toks t with
+  | h :: _ => negb (nilb h) && forallb (in_str alnum_) h && negb (memc h [kpair]) && not_operatorb h
+  | [] => false
+  end.
+Lemma head_statb_ok : forall t, head_statb t = true -> head_stat t.
+Proof.
+  intros t H. unfold head_statb in H. destruct (ty_toks t) as [|h rest'] eqn:E; [discriminate|].
+  apply andb_true_iff in H. destruct H as [H H4]. apply andb_true_iff in H. destruct H as [H H3]. apply andb_true_iff in H. destruct H as [H1 H2].
+  exists h, rest'. split; [exact E|]. split; [split; [intros X; subst h; discriminate | exact H2]|]. split.
+  - unfold memc in H3. destruct (in_dec chars_dec h [kpair]) as [i|ni]; [discriminate|]. intros X. apply ni. left. symmetry. exact X.
+  - unfold not_operatorb, not_operator in *. destruct (prefix koperator h); [discriminate | reflexivity].
+Qed.
 Definition wf_memb (m : mem) : bool :=
   match m with
   | MC args => forallb wf_argb args
@@ -357,12 +384,13 @@ Definition wf_memb (m : mem) : bool :=
                      && forallb wf_argb args
   | MP t n => wf_tyb t && Nat.ltb (depth t) depth_fuel && head_memb t && is_ident (chars_of n) && not_operatorb (chars_of n)
   | ME n l => wf_enumb n l && not_operatorb (chars_of n)
+  | MS t n args => wf_tyb t && Nat.ltb (depth t) depth_fuel && head_statb t && is_ident (chars_of n) && forallb wf_argb args
   end.
 Lemma wf_argsb_ok : forall args, forallb wf_argb args = true -> Forall wf_arg args.
 Proof. intros args H. apply Forall_forall. intros a Ha. apply wf_argb_ok. rewrite forallb_forall in H. apply H. exact Ha. Qed.
 Lemma wf_memb_ok : forall m, wf_memb m = true -> wf_mem m.
 Proof.
-  intros [args | t n args cst | t n | en el] H; cbn [wf_memb wf_mem] in *.
+  intros [args | t n args cst | t n | en el | t n args] H; cbn [wf_memb wf_mem] in *.
   - apply wf_argsb_ok. exact H.
   - apply andb_true_iff in H. destruct H as [H H6]. apply andb_true_iff in H. destruct H as [H H5]. apply andb_true_iff in H. destruct H as [H H4].
     apply andb_true_iff in H. destruct H as [H H3]. apply andb_true_iff in H. destruct H as [H1 H2]. apply Nat.ltb_lt in H2.
@@ -374,6 +402,10 @@ Proof.
     unfold not_operatorb, not_operator in *. destruct (prefix koperator (chars_of n)); [discriminate | reflexivity].
   - apply andb_true_iff in H. destruct H as [H1 H2]. split; [apply wf_enumb_ok; exact H1|].
     unfold not_operatorb, not_operator in *. destruct (prefix koperator (chars_of en)); [discriminate | reflexivity].
+  - apply andb_true_iff in H. destruct H as [H H5]. apply andb_true_iff in H. destruct H as [H H4].
+    apply andb_true_iff in H. destruct H as [H H3]. apply andb_true_iff in H. destruct H as [H1 H2]. apply Nat.ltb_lt in H2.
+    split; [apply (wf_tyb_ok _ _ H2 H1)|]. split; [exact H2|]. split; [apply head_statb_ok; exact H3|]. split; [exact H4|].
+    apply wf_argsb_ok. exact H5.
 Qed.
 Definition wf_classb (n : string) (ms : list mem) : bool :=
   is_ident (chars_of n) && name_okb (chars_of n) && negb (memc (chars_of n) reserved) && forallb wf_memb ms.
